@@ -101,6 +101,16 @@ class C14(Check):
         outs, models = [], []
         info = {'api:' + case.get('api', 'open'): 1, 'keylen:%#x' % case['keylen']: 1, 'backend:' + case['backend']: 1, 'via:' + case['via']: 1, 'style:' + case['style']: 1}
         # --- key setup / ID0
+        if case['seed'] % 3 == 0:
+            # the engine has a HISTORY: it was set up with another console's movable.sed and used (ID0 read, a clone taken) before
+            # this key is loaded - everything derived from the SD key must follow the key that is loaded now
+            info['engine re-keyed'] = 1
+            try:
+                eng.setup_sd_key(Rng(case['seed'] + 5).rbytes(16))
+                _ = eng.id0
+                _ = eng.clone().id0
+            except Exception:  # noqa
+                pass
         try:
             eng.setup_sd_key(data)
             kn = eng.key_normal
